@@ -8,6 +8,7 @@ import MJ.Proofs.CollGroup
 import MJ.Proofs.CollRuns
 import MJ.Proofs.CollX
 import MJ.Proofs.CollD
+import MJ.Model.CmpStr
 /-!
 # C07 — Value order / equality / hash laws and the algebra of the collection filters
 
@@ -1096,6 +1097,82 @@ theorem derived_maps_tie : MJ.Gen.derivedMaps = [
     ("dict", "insert-loop"), ("MergeDict::enumerate", "insert-loop"),
     ("MergeDict::get_value", "last-defined-wins,undefined-entries-found"),
     ("namespace", "as_key_str"), ("contains-map", "obj.get_value(value).is_some()")] := by rfl
+
+/-! ## strings: the order is on the text, whatever holds it -/
+
+open MJ.CmpStr in
+theorem cmpV_str (s t : List Nat) : cmpV (.str s) (.str t) = cmpBytes s t := by
+  have hr : ¬ ((V.str s).rank ≠ (V.str t).rank) := fun h => h rfl
+  rw [cmpV, if_neg hr]
+
+open MJ.CmpStr in
+theorem cmpBytes_eq_lex : ∀ s t : List Nat, cmpBytes s t = lexBytes s t
+  | [], [] => by simp [cmpBytes, lexBytes, List.compareLex]
+  | [], _ :: _ => by simp [cmpBytes, lexBytes, List.compareLex]
+  | _ :: _, [] => by simp [cmpBytes, lexBytes, List.compareLex]
+  | a :: as, b :: bs => by
+    have ih := cmpBytes_eq_lex as bs
+    unfold cmpBytes at ih ⊢
+    simp only [List.compareLex, lexBytes]
+    rw [← ih]
+    cases compare a b <;> simp [Ordering.then]
+
+open MJ.CmpStr in
+/-- the order of two strings is the byte-wise lexicographic order of their texts -/
+theorem string_order_is_lexicographic (s t : List Nat) : cmpV (.str s) (.str t) = lexBytes s t := by
+  rw [cmpV_str, cmpBytes_eq_lex]
+
+open MJ.CmpStr in
+/-- a proper prefix is strictly smaller, never `Equal` — whatever byte follows, a NUL included -/
+theorem string_prefix_is_smaller : ∀ (s t : List Nat), t ≠ [] → cmpV (.str s) (.str (s ++ t)) = .lt
+  | [], t, ht => by
+    rw [string_order_is_lexicographic]
+    cases t with
+    | nil => exact absurd rfl ht
+    | cons c cs => rfl
+  | a :: s, t, ht => by
+    have ih := string_prefix_is_smaller s t ht
+    rw [string_order_is_lexicographic] at ih ⊢
+    simp only [List.cons_append, lexBytes]
+    have : compare a a = .eq := by simp
+    rw [this, ih]; rfl
+
+open MJ.CmpStr in
+/-- the order, `==` of strings depend on the TEXT only, not on what holds it: every pair of representations
+    (inline/inline, heap/heap, mixed; normal or safe) compares like the model's `.str` values of the two texts -/
+theorem string_cmp_independent_of_repr (a b : StrRepr) :
+    cmpStrRepr a b = cmpV (.str a.bytes) (.str b.bytes) ∧
+    eqStrRepr a b = eqV .btree (.str a.bytes) (.str b.bytes) := by
+  refine ⟨?_, ?_⟩
+  · rw [cmpV_str]; cases a <;> cases b <;> rfl
+  · cases a <;> cases b <;> simp [eqStrRepr, StrRepr.bytes, eqV]
+
+open MJ.CmpStr in
+/-- an inline string holds its text -/
+theorem inline_holds_text (s : List Nat) (r : StrRepr) (h : mkInline s = some r) : r.bytes = s := by
+  unfold mkInline at h
+  split at h
+  · cases h; simp [StrRepr.bytes]
+  · cases h
+
+open MJ.CmpStr in
+/-- comparing the zero-padded inline buffers without slicing them is NOT this order: `"a"` and `"a\0"` would be
+    `Equal` although they are different texts (the shape of seeded change C07-9) -/
+theorem padded_buffer_order_counterexample :
+    ∃ a b : StrRepr, mkInline [97] = some a ∧ mkInline [97, 0] = some b ∧
+      cmpPadded a b = .eq ∧ cmpStrRepr a b = .lt ∧ eqStrRepr a b = false := by
+  refine ⟨_, _, rfl, rfl, ?_, ?_, ?_⟩ <;> decide
+
+
+/-- the string arms of `impl Ord` / `impl PartialEq` / `impl Hash` and `SmallStr::as_str`, read off value/mod.rs:
+    inline strings are compared, tested for equality and hashed through `as_str()` (the buffer sliced to its
+    length), heap strings directly; the inline capacity is 22 bytes -/
+theorem string_arms_tie : MJ.Gen.strArms = [
+    ("Ord", "SmallStr", "a.as_str().cmp(b.as_str())"), ("Ord", "String", "a.cmp(b)"),
+    ("PartialEq", "SmallStr", "a.as_str()==b.as_str()"), ("PartialEq", "String", "a==b"),
+    ("Hash", "SmallStr", "s.as_str().hash(state)"), ("Hash", "String", "s.hash(state)"),
+    ("SmallStr::as_str", "slice", "&self.buf[..self.lenasusize]")] ∧ MJ.Gen.smallStrCap = 22 := by
+  constructor <;> rfl
 
 /-! ## the property, assembled -/
 
